@@ -49,6 +49,9 @@ pub enum Op {
     UpdateMembers { sender: String, adds: Vec<(String, u64)>, rems: Vec<String> },
     UpdateAdmin { sender: String, new_admin: Option<String> },
     Distribute { sender: String, denoms: Option<Vec<usize>> },
+    /// migrate the splits contract to the same code; `stored` = cw2 (name, version) written
+    /// into its storage just before (None: whatever is recorded)
+    Migrate { who: String, stored: Option<(String, String)> },
 }
 
 #[derive(Clone, Copy, Debug, Serialize, Deserialize, PartialEq, Eq, PartialOrd, Ord)]
@@ -72,6 +75,22 @@ pub struct World {
     pub app: App,
     pub splits: Addr,
     pub group: Addr,
+    /// a second cw4 group the splits contract has nothing to do with (always `contract2`):
+    /// stranger (weight 1) and admin2 (weight 3)
+    pub decoy: Addr,
+}
+pub const DECOY: &str = "contract2";
+/// the wasm-level admin of the splits contract (the only account that can migrate it)
+pub const WASM_ADMIN: &str = ADMIN;
+
+fn make_decoy(app: &mut App, gcode: u64) -> Addr {
+    let gmsg = cw4_group::msg::InstantiateMsg {
+        admin: Some(GADMIN.to_string()),
+        members: vec![Member { addr: STRANGER.to_string(), weight: 1 }, Member { addr: ADMIN2.to_string(), weight: 3 }],
+    };
+    let a = app.instantiate_contract(gcode, Addr::unchecked("creator"), &gmsg, &[], "decoy", None).expect("decoy group");
+    assert_eq!(a.as_str(), DECOY);
+    a
 }
 
 pub fn resolve(s: &str, me: &str) -> String {
@@ -114,7 +133,8 @@ pub fn instantiate_existing(
         _ => return Err("splits"),
     };
     assert_eq!(splits.as_str(), me);
-    Ok(World { app, splits, group })
+    let decoy = make_decoy(&mut app, gcode);
+    Ok(World { app, splits, group, decoy })
 }
 
 /// splits instantiates the group through a submessage + reply (no group checks on this path)
@@ -145,7 +165,10 @@ pub fn instantiate_reply(
     };
     assert_eq!(splits.as_str(), me);
     let group: Addr = app.wrap().query_wasm_smart(&splits, &sg_splits::msg::QueryMsg::Group {}).map_err(|_| "group-query")?;
-    Ok(World { app, splits, group })
+    // the ledger's group address is what creation order dictates, not what splits answers
+    let group = if group.as_str() == "contract1" { group } else { return Err("group-query") };
+    let decoy = make_decoy(&mut app, gcode);
+    Ok(World { app, splits, group, decoy })
 }
 
 impl World {
@@ -177,12 +200,15 @@ impl World {
     }
     /// splits' own ListMembers with the 30-entry page the contract uses
     pub fn splits_page(&self) -> Vec<(String, u64)> {
-        let r: cw4::MemberListResponse = self
-            .app
+        // an unanswerable query (e.g. GROUP pointing nowhere) is reported as an empty page
+        self.app
             .wrap()
-            .query_wasm_smart(&self.splits, &sg_splits::msg::QueryMsg::ListMembers { start_after: None, limit: Some(30) })
-            .unwrap();
-        r.members.into_iter().map(|m| (m.addr, m.weight)).collect()
+            .query_wasm_smart::<cw4::MemberListResponse>(&self.splits, &sg_splits::msg::QueryMsg::ListMembers { start_after: None, limit: Some(30) })
+            .map(|r| r.members.into_iter().map(|m| (m.addr, m.weight)).collect())
+            .unwrap_or_default()
+    }
+    pub fn splits_group(&self) -> Option<String> {
+        self.app.wrap().query_wasm_smart::<Addr>(&self.splits, &sg_splits::msg::QueryMsg::Group {}).ok().map(|a| a.to_string())
     }
     pub fn splits_admin(&self) -> Option<String> {
         let r: cw_controllers::AdminResponse =
@@ -244,6 +270,20 @@ impl World {
                 let splits = self.splits.clone();
                 chain::exec(&mut self.app, &resolve(sender, &me), &splits, &msg, &[]).map(|_| ())
             }
+            Op::Migrate { who, stored } => {
+                let splits = self.splits.clone();
+                if let Some((name, version)) = stored {
+                    crate::w_migrate::set_cw2(&mut self.app, &splits, name, version);
+                }
+                let code_id = self.app.contract_data(&splits).map_err(|e| e.to_string())?.code_id;
+                let who = Addr::unchecked(resolve(who, &me));
+                let app = &mut self.app;
+                match crate::util::catch(|| app.migrate_contract(who, splits, &Empty {}, code_id)) {
+                    Ok(Ok(_)) => Ok(()),
+                    Ok(Err(e)) => Err(format!("{:#}", e)),
+                    Err(p) => Err(p),
+                }
+            }
             Op::Distribute { sender, denoms } => {
                 let msg = sg_splits::msg::ExecuteMsg::Distribute {
                     denom_list: denoms.as_ref().map(|v| v.iter().map(|i| DENOMS[*i].to_string()).collect()),
@@ -285,6 +325,9 @@ pub fn accounts_of(h: &Hist) -> Vec<String> {
             Op::Distribute { sender, .. } => {
                 s.insert(sender.clone());
             }
+            Op::Migrate { who, .. } => {
+                s.insert(who.clone());
+            }
             Op::Deposit { .. } => {}
         }
     }
@@ -312,6 +355,7 @@ pub fn coq_op(op: &Op) -> String {
             crate::util::coq_list(&rems.iter().map(|r| addr_id(r).to_string()).collect::<Vec<_>>())
         ),
         Op::UpdateAdmin { sender, new_admin } => format!("UpdateAdmin {} {}", addr_id(sender), coq_opt_addr(new_admin)),
+        Op::Migrate { .. } => panic!("a migration is not an `op` of the model; it is printed as an SMig step"),
         Op::Distribute { sender, denoms } => format!(
             "Distribute {} {}",
             addr_id(sender),
